@@ -294,6 +294,12 @@ func (t *template) Load(filename string) Template {
 	tpl.frontMatter, tpl.templateBytes, tpl.err = t.vue.loader.loadFragment(filename)
 	tpl.filename = filename
 	tpl.filenameLoaded = true
+	if tpl.err != nil {
+		// Render will return this error without going through the template cache, so the cache
+		// would never learn that its entry for the file is out of date; drop it here (the file
+		// may later get other content under the cached modification time again).
+		t.vue.forgetTemplate(filename)
+	}
 
 	for k, v := range tpl.frontMatter {
 		tpl.Assign(k, v)
